@@ -82,6 +82,27 @@ func runCmd(dir string, env []string, name string, args ...string) (string, erro
 	return out.String(), err
 }
 
+// altModfile supports running the checks against a copy of the repository
+// (VERIF_REPO=<dir>, used when trying seeded changes in scratch worktrees): the
+// harness module's "replace => /repo" is redirected through a generated go.mod.
+// With the default /repo nothing is generated.
+func altModfile(work string) string {
+	if repoDir == "/repo" {
+		return ""
+	}
+	b, err := os.ReadFile(filepath.Join(verifRoot, "harness", "go.mod"))
+	if err != nil {
+		return ""
+	}
+	mod := strings.Replace(string(b), "=> /repo", "=> "+repoDir, 1)
+	mf := filepath.Join(work, "alt.mod")
+	os.WriteFile(mf, []byte(mod), 0644)
+	if sum, err := os.ReadFile(filepath.Join(verifRoot, "harness", "go.sum")); err == nil {
+		os.WriteFile(filepath.Join(work, "alt.sum"), sum, 0644)
+	}
+	return mf
+}
+
 func inconclusive(id, why string) {
 	fmt.Printf("INCONCLUSIVE property=%s %s\n", id, why)
 	os.Exit(2)
@@ -156,6 +177,9 @@ func main() {
 	args := []string{"build"}
 	if cfg.Race {
 		args = append(args, "-race")
+	}
+	if mf := altModfile(work); mf != "" {
+		args = append(args, "-modfile="+mf)
 	}
 	args = append(args, "-overlay", ov.OverlayPath, "-o", vmon, "./cmd/vmon")
 	if out, err := runCmd(filepath.Join(verifRoot, "harness"), env, "go", args...); err != nil {
@@ -357,9 +381,14 @@ func main() {
 		"wall_s":      round2(time.Since(start).Seconds()),
 		"violations":  len(unknown),
 	}
-	os.MkdirAll(filepath.Join(verifRoot, "evidence"), 0755)
+	evDir := filepath.Join(verifRoot, "evidence")
+	if repoDir != "/repo" {
+		// a trial run against a scratch copy is not evidence about /repo
+		evDir = filepath.Join(verifRoot, ".work", "trial-evidence")
+	}
+	os.MkdirAll(evDir, 0755)
 	evb, _ := json.MarshalIndent(ev, "", " ")
-	evPath := filepath.Join(verifRoot, "evidence", id+".json")
+	evPath := filepath.Join(evDir, id+".json")
 	os.WriteFile(evPath+".tmp", evb, 0644)
 	os.Rename(evPath+".tmp", evPath)
 
@@ -376,6 +405,9 @@ func main() {
 
 	if len(unknown) > 0 {
 		dir := filepath.Join(verifRoot, "replays", id)
+		if repoDir != "/repo" {
+			dir = filepath.Join(verifRoot, ".work", "trial-replays", filepath.Base(repoDir), id)
+		}
 		os.MkdirAll(dir, 0755)
 		printed := map[string]bool{}
 		for _, v := range unknown {
@@ -446,7 +478,7 @@ func runChild(id string, cfg propCfg, vmon, work, tier string, seed uint64, batc
 	cmd := exec.Command(vmon, args...)
 	cmd.Dir = cdir
 	env := os.Environ()
-	env = append(env, "GORACE=halt_on_error=1 exitcode=66", "GOTRACEBACK=all")
+	env = append(env, "GORACE=halt_on_error=1 exitcode=66", "GOTRACEBACK=all", "VERIF_REPO="+repoDir)
 	cmd.Env = env
 	lf, err := os.Create(logPath)
 	if err != nil {
